@@ -203,6 +203,120 @@ def long_run_case(case):
     return n + 20
 
 
+FINAL_REQUESTS = ['execute()', 'execute(1)', 'execute(2)', 'execute(3)', 'execute_systems()', 'execute_systems(False)',
+                  'execute_systems(throw_error=True)', 'execute_systems(True)', 'executeSystems()']
+
+
+def final_step_case(case):
+    """The request that turns out to be the model's last: it is made while the model is running, a system completes the
+    model in the middle of it.  The systems ahead of the completer and the completer itself run, the clock moves by one,
+    and the request returns normally however it was phrased."""
+    reset_library()
+    model = new_model(seed=1)
+    log = []
+    Rec = make_rec(log)
+    tc, pos, req = case['tc'], case['pos'], case['request']
+
+    class Fin(Rec):
+        def execute(self):
+            super().execute()
+            self.model.complete()
+    prio = {'first': 9, 'mid': 5, 'last': 1}
+    systems = [Rec('a', model, prio['first'] if pos != 'first' else 8, 0, DEFAULT, 1),
+               Rec('z', model, prio['last'] if pos != 'last' else 2, 0, DEFAULT, 2),
+               Fin('fin', model, prio[pos] if pos != 'mid' else 5, tc, tc, 1)]
+    for s in systems:
+        model.systems.add_system(s)
+    if tc:
+        model.execute(tc)
+    if not model.is_running() or model.timestep != tc:
+        raise Violation(f'{tc} plain steps: clock / status', expected=[tc, True], observed=[model.timestep, model.is_running()])
+    del log[:]
+    sm = model.systems
+    calls = {'execute()': lambda: model.execute(), 'execute(1)': lambda: model.execute(1),
+             'execute(2)': lambda: model.execute(2), 'execute(3)': lambda: model.execute(n=3),
+             'execute_systems()': lambda: sm.execute_systems(), 'execute_systems(False)': lambda: sm.execute_systems(False),
+             'execute_systems(throw_error=True)': lambda: sm.execute_systems(throw_error=True),
+             'execute_systems(True)': lambda: sm.execute_systems(True), 'executeSystems()': lambda: sm.executeSystems()}
+    try:
+        calls[req]()
+    except Core.ModelCompleteError:
+        raise Violation(f'{req} made at timestep {tc} while the model was running raised ModelCompleteError (a system '
+                        f'completed the model during that step)', expected='returns normally', observed='ModelCompleteError')
+    order = sorted(systems, key=lambda s: -s.priority)
+    exp = []
+    for s in order:
+        if s.key == 'z' and tc % 2:
+            continue
+        exp.append((tc, s.key))
+        if s.key == 'fin':
+            break
+    if log != exp:
+        raise Violation(f'{req} at timestep {tc} (completer {pos}): activations in the final step', expected=exp,
+                        observed=list(log))
+    if model.timestep != tc + 1 or model.systems.timestep != tc + 1:
+        raise Violation(f'{req} made at timestep {tc} while the model was running (a system completed the model during that '
+                        f'step): clock', expected=tc + 1, observed=[model.timestep, model.systems.timestep])
+    return tuple(log)
+
+
+def replaced_case(case):
+    """A supervisor retires a system during timestep ts and registers another object under the same id (its own window
+    and frequency): from then on the retired object never runs, the new one runs by ITS window."""
+    reset_library()
+    model = new_model(seed=1)
+    log = []
+    Rec = make_rec(log)
+    ts, sp, horizon = case['ts'], case['sup_prio'], 12
+    old = Rec('old', model, 3, 0, DEFAULT, case['f_old'], sid='sensor')
+    new = Rec('new', model, case['p_new'], case['s_new'], case['s_new'] + 5, case['f_new'], sid='sensor')
+    tail = Rec('tail', model, -1, 0, DEFAULT, 1)
+
+    class Sup(Rec):
+        def execute(self):
+            super().execute()
+            self.model.systems.remove_system('sensor')
+            self.model.systems.add_system(new)
+    sup = Sup('sup', model, sp, ts, ts, 1)
+    for s in (old, tail, sup):
+        model.systems.add_system(s)
+    steps = case['steps']
+    done = 0
+    for n in steps:
+        model.execute(n)
+        done += n
+    exp = []
+    for t in range(done):
+        row = []
+        if t == ts:
+            row.append((sp, 2, 'sup'))
+        # the old object runs while it is the registered one: before ts, and at ts only if its turn comes before the supervisor's
+        if active(t, 0, DEFAULT, case['f_old']) and (t < ts or (t == ts and 3 >= sp)):
+            row.append((3, 0, 'old'))
+        # the new object: registered during ts; whether it still runs in ts itself is C05's matter - avoided by s_new > ts
+        if t > ts and active(t, case['s_new'], case['s_new'] + 5, case['f_new']):
+            row.append((case['p_new'], 3, 'new'))
+        row.append((-1, 1, 'tail'))
+        exp += [(t, k) for _, _, k in sorted(row, key=lambda r: (-r[0], r[1]))]
+    if log != exp:
+        raise Violation(f'a system replaced under its id during timestep {ts}: activations differ from the window predicate '
+                        f'applied to the object registered at the time', expected=exp, observed=list(log))
+    if model.timestep != done or model.systems['sensor'] is not new:
+        raise Violation('clock / registered object after the replacement', expected=[done, 'new'],
+                        observed=[model.timestep, getattr(model.systems['sensor'], 'key', None)])
+    return tuple(log)
+
+
+def replaced_cases():
+    for ts in (0, 2, 4):
+        for sp in (10, 3, 1):             # supervisor ahead of, level with (registered later), behind the retired system
+            for f_old in (1, 2):
+                for p_new, s_new, f_new in ((3, ts + 2, 3), (7, ts + 1, 1), (-5, ts + 1, 2)):
+                    for steps in ([12], [3, 1, 1, 1, 1, 1, 4]):
+                        yield {'leg': 'replaced', 'ts': ts, 'sup_prio': sp, 'f_old': f_old, 'p_new': p_new, 's_new': s_new,
+                               'f_new': f_new, 'steps': steps}
+
+
 def sweep_chunk(ctx, chunk):
     for case in chunk:
         ctx.traces += 1
@@ -425,6 +539,34 @@ def run(ctx):
             except Violation as v:
                 ctx.report(case, v)
         ctx.leg('long_run', note='5000 (thorough also 70000) timesteps, then a closed window is reopened')
+    if not ctx.violations:
+        nf = 0
+        for tc in (0, 1, 2, 3):
+            for pos in ('first', 'mid', 'last'):
+                for req in FINAL_REQUESTS:
+                    case = {'leg': 'final_step', 'tc': tc, 'pos': pos, 'request': req}
+                    ctx.traces += 1
+                    nf += 1
+                    try:
+                        ctx.outcome(hbfs._guard(final_step_case, case))
+                        ctx.transitions += tc + 1
+                    except Violation as v:
+                        ctx.report(case, v)
+                        if ctx.full():
+                            return
+        ctx.leg('final_step', cases=nf, note='the request during which a system completes the model, in every phrasing')
+        nr = 0
+        for case in replaced_cases():
+            ctx.traces += 1
+            nr += 1
+            try:
+                ctx.outcome(hbfs._guard(replaced_case, case))
+                ctx.transitions += 12
+            except Violation as v:
+                ctx.report(case, v)
+                if ctx.full():
+                    return
+        ctx.leg('replaced', cases=nr, note='a supervisor replaces a system under its id in the middle of a timestep')
     if ctx.violations or ctx.small:
         return
     h = MultiWithTwin(6 if ctx.tier == 'quick' else 9)
@@ -437,6 +579,12 @@ def run(ctx):
 def replay(case):
     if case['leg'] == 'long_run':
         hbfs._guard(long_run_case, case)
+        return
+    if case['leg'] == 'final_step':
+        hbfs._guard(final_step_case, case)
+        return
+    if case['leg'] == 'replaced':
+        hbfs._guard(replaced_case, case)
         return
     if case['leg'] == 'window_sweep':
         hbfs._guard(sweep_case, case)
